@@ -243,7 +243,7 @@ func (e *c09Env) probe(rng *mrand.Rand) string {
 	}
 	done := make(chan string, 1)
 	go func() {
-		sesh := client.MakeSession(remote, auth, e.g.lis)
+		sesh := client.MakeSession(remote, auth, e.g.dialerFor("direct"))
 		st, err := sesh.OpenStream()
 		if err != nil {
 			done <- "OpenStream: " + err.Error()
@@ -267,6 +267,7 @@ func (e *c09Env) probe(rng *mrand.Rand) string {
 	case s := <-done:
 		return s
 	default:
+		e.g.stopClients()
 		return "a genuine client handshake + 1 KiB echo did not complete within 30 virtual seconds"
 	}
 }
